@@ -15,14 +15,17 @@
    NOT modelled here (owned by C12/C13): id/host/module range and duplicate-id checks, the
    hashed text (a hash is any function of the source declaration, see [hash_of] users). *)
 From Coq Require Import ZArith List Bool String Ascii.
-From Defs Require Import Gen.TypeTables Model.Layout.
+From Defs Require Import Gen.TypeTables Gen.EmitGuards Model.Layout.
 Import ListNotations.
 Open Scope string_scope.
 Open Scope list_scope.
 Open Scope Z_scope.
 
 (* ------------------------------------------------------------------ source closure *)
-Inductive cexpr := CLit (n : Z) | CRef (c : string) | CAdd (a b : cexpr) | CSub (a b : cexpr) | CMul (a b : cexpr).
+(* constant expressions: integer literals, references, + - *, and TRUE division by a positive integer literal
+   (`A / 2`, `(A + B) / 2`, `5 / 2`): Python's `/`, whose result is a float *)
+Inductive cexpr := CLit (n : Z) | CRef (c : string) | CAdd (a b : cexpr) | CSub (a b : cexpr) | CMul (a b : cexpr)
+                 | CDiv (a : cexpr) (d : positive).
 Record fdecl := mkFd { fd_name : string; fd_type : string; fd_len : option cexpr }.
 Inductive body := BFields (l : list fdecl) | BReuse (n : string).
 Inductive item :=
@@ -74,6 +77,27 @@ Definition closure_items (c : closure) : option (list item) :=
   | None => None
   end.
 
+(* ------------------------------------------------------------------ values of constant expressions
+   expand_expression substitutes str(value) for every constant and evals the text: the value is a Python int, or a
+   Python float as soon as a true division (or a float constant) takes part - and it STAYS a float when the result
+   is a whole number (16 / 2 = 8.0).  A float is modelled by the exact rational it stands for (lowest terms);
+   that is the float Python computes whenever every intermediate result is a dyadic rational below 2^53 (divisors
+   2, 4, 8, 16, ...: what the correspondence generates); other divisors are exercised on the implementation only. *)
+Record rat := mkRat { rnum : Z; rden : positive }.
+Definition rnorm (n : Z) (d : positive) : rat :=
+  let g := Z.gcd n (Zpos d) in mkRat (n / g) (Z.to_pos (Zpos d / g)).
+Inductive cval := VInt (n : Z) | VFlt (q : rat).
+Definition to_rat (v : cval) : rat := match v with VInt n => mkRat n 1 | VFlt q => q end.
+Definition radd (a b : rat) : rat := rnorm (rnum a * Zpos (rden b) + rnum b * Zpos (rden a)) (rden a * rden b).
+Definition rsub (a b : rat) : rat := rnorm (rnum a * Zpos (rden b) - rnum b * Zpos (rden a)) (rden a * rden b).
+Definition rmul (a b : rat) : rat := rnorm (rnum a * rnum b) (rden a * rden b).
+(* int op int is an int; anything else is a float *)
+Definition cbin (zop : Z -> Z -> Z) (rop : rat -> rat -> rat) (a b : cval) : cval :=
+  match a, b with VInt x, VInt y => VInt (zop x y) | _, _ => VFlt (rop (to_rat a) (to_rat b)) end.
+Definition cdiv (a : cval) (d : positive) : cval := let q := to_rat a in VFlt (rnorm (rnum q) (rden q * d)).
+(* int(): truncation toward zero *)
+Definition cval_int (v : cval) : Z := match v with VInt n => n | VFlt q => Z.quot (rnum q) (Zpos (rden q)) end.
+
 (* ------------------------------------------------------------------ parsed state *)
 Inductive atarget := ANat (key : string) | AStruct (sname : string).
 Record palias := mkPA { pa_name : string; pa_target : atarget; pa_size : Z; pa_align : Z }.
@@ -83,7 +107,7 @@ Record pfield := mkPF { pf_name : string; pf_ty : string; pf_kind : fkind; pf_le
 Record pdef := mkPD { pd_name : string; pd_id : option Z; pd_fields : list pfield; pd_size : Z; pd_align : Z;
                       pd_body : option body }.
 Record pstate := mkPS {
-  ps_consts : list (string * Z); ps_strs : list (string * string); ps_aliases : list palias;
+  ps_consts : list (string * cval); ps_strs : list (string * string); ps_aliases : list palias;
   ps_hids : list (string * Z); ps_mids : list (string * Z); ps_mts : list (string * Z);
   ps_structs : list pdef; ps_msgs : list pdef }.
 Definition ps_empty : pstate := mkPS [] [] [] [] [] [] [] [].
@@ -102,20 +126,26 @@ Fixpoint slookup (n : string) (t : list (string * string)) : option string :=
   match t with [] => None | (k, v) :: r => if String.eqb k n then Some v else slookup n r end.
 Fixpoint zlookup (n : string) (t : list (string * Z)) : option Z :=
   match t with [] => None | (k, v) :: r => if String.eqb k n then Some v else zlookup n r end.
+Fixpoint clookup (n : string) (t : list (string * cval)) : option cval :=
+  match t with [] => None | (k, v) :: r => if String.eqb k n then Some v else clookup n r end.
 Fixpoint find_def (n : string) (l : list pdef) : option pdef :=
   match l with [] => None | d :: r => if String.eqb (pd_name d) n then Some d else find_def n r end.
 Fixpoint find_alias (n : string) (l : list palias) : option palias :=
   match l with [] => None | a :: r => if String.eqb (pa_name a) n then Some a else find_alias n r end.
 
-(* expand_expression + eval on the documented integer arithmetic *)
-Fixpoint ceval (cs : list (string * Z)) (e : cexpr) : option Z :=
+(* expand_expression + eval on the documented arithmetic *)
+Fixpoint ceval (cs : list (string * cval)) (e : cexpr) : option cval :=
   match e with
-  | CLit n => Some n
-  | CRef c => zlookup c cs
-  | CAdd a b => match ceval cs a, ceval cs b with Some x, Some y => Some (x + y) | _, _ => None end
-  | CSub a b => match ceval cs a, ceval cs b with Some x, Some y => Some (x - y) | _, _ => None end
-  | CMul a b => match ceval cs a, ceval cs b with Some x, Some y => Some (x * y) | _, _ => None end
+  | CLit n => Some (VInt n)
+  | CRef c => clookup c cs
+  | CAdd a b => match ceval cs a, ceval cs b with Some x, Some y => Some (cbin Z.add radd x y) | _, _ => None end
+  | CSub a b => match ceval cs a, ceval cs b with Some x, Some y => Some (cbin Z.sub rsub x y) | _, _ => None end
+  | CMul a b => match ceval cs a, ceval cs b with Some x, Some y => Some (cbin Z.mul rmul x y) | _, _ => None end
+  | CDiv a d => match ceval cs a with Some x => Some (cdiv x d) | None => None end
   end.
+(* add_fields: the length of a field is int(value of the length expression) (Gen/EmitGuards.v) *)
+Definition leval (cs : list (string * cval)) (e : cexpr) : option Z :=
+  match ceval cs e with Some v => Some (cval_int v) | None => None end.
 
 (* check_duplicate_name over constants, string_constants, aliases, struct_defs, message_defs *)
 Definition type_names (st : pstate) : list string :=
@@ -158,14 +188,14 @@ Definition resolve_ftype (al : list palias) (ss ms : list pdef) (t : string) : p
 Definition reserved_field_names : list string :=
   ["type_id"; "type_name"; "type_hash"; "type_source"; "type_def"; "type_size"; "hexdump"]%string.
 
-Definition resolve_field (cs : list (string * Z)) (al : list palias) (ss ms : list pdef) (d : fdecl) : pres pfield :=
+Definition resolve_field (cs : list (string * cval)) (al : list palias) (ss ms : list pdef) (d : fdecl) : pres pfield :=
   if existsb (String.eqb (fd_name d)) reserved_field_names then PReject RSyntax else
   match resolve_ftype al ss ms (fd_type d) with
   | POk (k, sz, a) =>
     match fd_len d with
     | None => POk (mkPF (fd_name d) (fd_type d) k None sz a (-1))
-    | Some e => match ceval cs e with
-                | Some v => if v <? 1 then PReject RSyntax      (* "Array length must be at least 1" *)
+    | Some e => match leval cs e with
+                | Some v => if v <? add_fields_length_min then PReject RSyntax   (* "Array length must be at least 1" *)
                             else POk (mkPF (fd_name d) (fd_type d) k (Some v) sz a (-1))
                 | None => PReject RExpand
                 end
@@ -174,7 +204,7 @@ Definition resolve_field (cs : list (string * Z)) (al : list palias) (ss ms : li
   | PCrash k => PCrash k
   end.
 
-Fixpoint resolve_fields (cs : list (string * Z)) (al : list palias) (ss ms : list pdef) (l : list fdecl)
+Fixpoint resolve_fields (cs : list (string * cval)) (al : list palias) (ss ms : list pdef) (l : list fdecl)
   : pres (list pfield) :=
   match l with
   | [] => POk []
@@ -188,7 +218,7 @@ Fixpoint resolve_fields (cs : list (string * Z)) (al : list palias) (ss ms : lis
   end.
 
 (* `fields: OTHER`: message_defs.get(OTHER) or struct_defs.get(OTHER); the Field objects are copied *)
-Definition resolve_body (cs : list (string * Z)) (al : list palias) (ss ms : list pdef) (b : body)
+Definition resolve_body (cs : list (string * cval)) (al : list palias) (ss ms : list pdef) (b : body)
   : pres (list pfield) :=
   match b with
   | BFields l => resolve_fields cs al ss ms l
@@ -283,7 +313,7 @@ Definition finish_def (ap : bool) (ps : list pfield) : pres (list pfield * Z * Z
 
 (* ------------------------------------------------------------------ one item *)
 Inductive delta :=
-| DConst (c : string * Z) | DStr (s : string * string) | DAlias (a : palias) | DHid (h : string * Z)
+| DConst (c : string * cval) | DStr (s : string * string) | DAlias (a : palias) | DHid (h : string * Z)
 | DMid (m : string * Z) | DStruct (d : pdef) | DMsg (ids : list (string * Z)) (ds : list pdef).
 
 Definition apply_delta (st : pstate) (d : delta) : pstate :=
@@ -618,8 +648,11 @@ Definition flat_field (p : pfield) : list Z := [olen (pf_len p); pf_esize p; pf_
 Definition flat_def (d : pdef) : list Z :=
   [match pd_id d with Some i => i | None => -1 end; pd_size d; pd_align d; Z.of_nat (List.length (pd_fields d))]
   ++ flat_map flat_field (pd_fields d).
+(* a constant: (0, n, 1) for an int, (1, numerator, denominator) for a float *)
+Definition cval_flat (v : cval) : list Z :=
+  match v with VInt n => [0; n; 1] | VFlt q => [1; rnum q; Zpos (rden q)] end.
 Definition flat_state (st : pstate) : list Z :=
-  map snd (ps_consts st) ++ [-7] ++ flat_map (fun a => [pa_size a; pa_align a; match pa_target a with ANat _ => 0 | AStruct _ => 1 end]) (ps_aliases st)
+  flat_map (fun c => cval_flat (snd c)) (ps_consts st) ++ [-7] ++ flat_map (fun a => [pa_size a; pa_align a; match pa_target a with ANat _ => 0 | AStruct _ => 1 end]) (ps_aliases st)
   ++ [-7] ++ map snd (ps_hids st) ++ [-7] ++ map snd (ps_mids st) ++ [-7] ++ map snd (ps_mts st)
   ++ [-7] ++ flat_map flat_def (ps_structs st) ++ [-7] ++ flat_map flat_def (ps_msgs st).
 Definition names_field (p : pfield) : list string := [pf_name p; pf_ty p].
